@@ -7,7 +7,7 @@ from sa.astx import body_walk, call_attr, call_name, dotted, src
 from sa.effects import accesses
 from sa.selftest import Mutant, Silent
 from sa.source import AnalysisError, methods, mro_lookup
-from sa.props._lib_c import (section, EvalUnsupported, Interp, SelfRef, LOGGER, assign_pairs, enclosing, gfind, is_const, isolating_with, must_pass, no_exc, parents, self_attr,
+from sa.props._lib_c import (norm_class, norm_func, all_funcs_of_class, _class_functions, section, EvalUnsupported, Interp, SelfRef, LOGGER, assign_pairs, enclosing, gfind, is_const, isolating_with, must_pass, no_exc, parents, self_attr,
                              swallowing_predicate)
 
 PROPERTY = "C13"
@@ -30,6 +30,9 @@ EXPLANATION = (
     "threadedselect wakers."
 )
 ASSUMPTIONS = [
+    "rules read a normalised copy of the class: a private non-generator method that is not an anchor, is only ever called as self._h(...) "
+    "inside its class and is mentioned in no other module is inlined at its call sites; single-assignment naming temporaries are substituted "
+    "only where nothing they read is written (and no call runs) in between",
     "list.append and prefix deletion are atomic with respect to each other under the GIL (documented in the source)",
     "asyncio's call_soon_threadsafe is a thread-safe FIFO that wakes the loop (asyncio contract)",
     "a byte written to the waker's write end makes the reactor's poll return (OS contract)",
@@ -48,6 +51,9 @@ def _const_one(e):
 
 def check(ctx):
     mod = ctx.mod(BASE)
+    RK = ("callFromThread", "runUntilCurrent", "wakeUp", "mainLoop", "__init__", "installWaker", "callLater", "timeout", "fireSystemEvent", "addSystemEventTrigger")
+    # normalised view of ReactorBase: private helpers that are not anchors (and not mentioned in any other module) are inlined
+    rb = norm_class(ctx, BASE, "ReactorBase", RK)
     names, swallow = swallowing_predicate(ctx, BASE)
     ctx.check(bool(names), "drain/handlers-derived", "twisted.logger._logger.Logger.failureHandler",
               "no failure handler of internet/base.py is provably swallowing: one raising call aborts the drain loop before the executed prefix is deleted "
@@ -66,11 +72,14 @@ def check(ctx):
         if unknown:
             raise AnalysisError(f"C13: new callFromThread implementation(s) not known to the checker: {unknown}")
         nacc = 0
-        drain_owner = next(("ReactorBase." + nm for nm, fx in methods(ctx.cls(BASE, "ReactorBase")).items()
+        drain_owner = next(("ReactorBase." + nm for nm, fx in methods(rb).items()
                             if any(isinstance(x, ast.For) and QUEUE in src(x.iter) for x in body_walk(fx))), "ReactorBase.runUntilCurrent")
         for rel in touchers:
             m = ctx.mod(rel)
-            for qn, fn in m.functions():
+            fns = list(m.functions())
+            if rel == BASE:
+                fns = [(qn, fn) for qn, fn in fns if not qn.startswith("ReactorBase.")] + list(all_funcs_of_class(rb))
+            for qn, fn in fns:
                 for a in accesses(fn, qn, {QUEUE}, None):
                     nacc += 1
                     key = ctx.construct(f"twisted.{rel[:-3].replace('/', '.')}.{a.func}", a.node)
@@ -83,7 +92,8 @@ def check(ctx):
 
     # ---- ReactorBase.callFromThread variants -----------------------------------------------------------------------------------
     with section(ctx, 'ReactorBase.callFromThread variants'):
-        variants = ctx.tree.funcs(BASE, "ReactorBase.callFromThread")
+        variants = [fx for _, fx in _class_functions(rb) if fx.name == "callFromThread"]
+        ctx.need(variants, "ReactorBase.callFromThread")
         ctx.functions.add(f"{BASE}:ReactorBase.callFromThread")
         threaded = []
         for i, f in enumerate(variants):
@@ -127,7 +137,7 @@ def check(ctx):
 
     # ---- wakeUp ------------------------------------------------------------------------------------------------------------------
     with section(ctx, 'wakeUp'):
-        f = ctx.func(BASE, "ReactorBase.wakeUp")
+        f = norm_func(ctx, BASE, "ReactorBase", "wakeUp", RK)
         g = ctx.cfg(f)
         q = f"{QR}.wakeUp"
         wk = gfind(g, lambda x: _is_call(x, "self.waker.wakeUp"))
@@ -147,8 +157,7 @@ def check(ctx):
 
     # ---- runUntilCurrent: the drain ------------------------------------------------------------------------------------------------
     with section(ctx, 'runUntilCurrent: the drain'):
-        f_ruc = ctx.func(BASE, "ReactorBase.runUntilCurrent")
-        rb = ctx.cls(BASE, "ReactorBase")
+        f_ruc = norm_func(ctx, BASE, "ReactorBase", "runUntilCurrent", RK)
         drainers = [(nm, fx) for nm, fx in methods(rb).items() if any(isinstance(x, ast.For) and QUEUE in src(x.iter) for x in body_walk(fx))]
         ctx.need(len(drainers) == 1, "exactly one ReactorBase method with a `for ... in self.threadCallQueue` loop")
         drain_name, f = drainers[0]
@@ -169,7 +178,11 @@ def check(ctx):
         h = heads[0]
         loop = g.node(h).ast
         lkey = ctx.construct(q, f"for {src(loop.target)} in {src(loop.iter)}")
-        ctx.check(src(loop.iter) == f"self.{QUEUE}", "drain/from-head", lkey,
+        it_e = loop.iter
+        if isinstance(it_e, ast.Call) and dotted(it_e.func) in ("islice", "itertools.islice") and not it_e.keywords and (
+                len(it_e.args) == 2 or (len(it_e.args) == 3 and isinstance(it_e.args[1], ast.Constant) and it_e.args[1].value in (0, None))):
+            it_e = it_e.args[0]   # islice(queue, n): the first n entries, from the head, of the live list
+        ctx.check(src(it_e) == f"self.{QUEUE}", "drain/from-head", lkey,
                   "the queue is not iterated from its head in place: calls of one thread run out of order, or the executed entries are not the deleted prefix")
         ok = isinstance(loop.target, ast.Tuple) and len(loop.target.elts) == 3 and all(isinstance(e, ast.Name) for e in loop.target.elts)
         ctx.check(ok, "drain/entry-shape", lkey, "queue entries are not unpacked as (f, args, kwargs)")
@@ -248,7 +261,7 @@ def check(ctx):
 
     # ---- mainLoop drains every iteration ------------------------------------------------------------------------------------------------
     with section(ctx, 'mainLoop drains every iteration'):
-        f = ctx.func(BASE, "ReactorBase.mainLoop")
+        f = norm_func(ctx, BASE, "ReactorBase", "mainLoop", RK)
         g = ctx.cfg(f, swallowing=swallow)
         q = f"{QR}.mainLoop"
         ru = gfind(g, lambda x: _is_call(x, "self.runUntilCurrent"))
@@ -264,7 +277,7 @@ def check(ctx):
 
     # ---- ReactorBase.__init__ --------------------
     with section(ctx, 'ReactorBase.__init__'):
-        f = ctx.func(BASE, "ReactorBase.__init__")
+        f = norm_func(ctx, BASE, "ReactorBase", "__init__", RK)
         g = ctx.cfg(f)
         iw = gfind(g, lambda x: _is_call(x, "self.installWaker"))
         w = must_pass(g, [g.entry], iw, exc=False)
@@ -595,4 +608,11 @@ SILENT = [
            more=[(ASYNCIO, "        if self._scheduledAt is None or abs_time < self._scheduledAt:\n", "        if self._timerHandle is None or self._scheduledAt is None or abs_time < self._scheduledAt:\n")]),
     Silent("waker-explicit-none-test", BASE, "        if self.waker:\n            self.waker.wakeUp()\n", "        if self.waker is not None:\n            self.waker.wakeUp()\n"),
     Silent("no-total-snapshot", BASE, "                count += 1\n                if count == total:\n                    break\n", "                count += 1\n"),
+
+    # --- shapes of the independent refactor set
+    Silent("enqueue-helper-shared-by-both-variants", BASE, _CFT, "            self._enqueueCall(f, args, kwargs)\n            self.wakeUp()\n",
+           more=[(BASE, "            # See comment in the other callFromThread implementation.\n            self.threadCallQueue.append((f, args, kwargs))\n", "            self._enqueueCall(f, args, kwargs)\n"),
+                 (BASE, "    def runUntilCurrent(self) -> None:\n", "    def _enqueueCall(self, f, args, kwargs) -> None:\n        entry = (f, args, kwargs)\n        self.threadCallQueue.append(entry)\n\n    def runUntilCurrent(self) -> None:\n")]),
+    Silent("drain-bounded-by-islice", BASE, "            for f, a, kw in self.threadCallQueue:\n                with _threadCallHandler:\n                    f(*a, **kw)\n                count += 1\n                if count == total:\n                    break\n",
+           "            for f, a, kw in islice(self.threadCallQueue, total):\n                with _threadCallHandler:\n                    f(*a, **kw)\n                count += 1\n"),
 ]
